@@ -479,7 +479,7 @@ def heavy(case):
 def depth_for(pc, case=None):
     br = pc["nA"] * pc["nO"]
     k = 1
-    while k < 4 and br ** (k + 1) <= 300:
+    while k < 4 and br ** (k + 1) <= 300 and br ** (k + 1) * pc["n"] ** 2 <= 2500:
         k += 1
     return min(k, 2) if case is not None and heavy(case) else k
 
@@ -894,10 +894,15 @@ def run(ctx):
             if not qt_ok:
                 worst = max(abs(fr(qr["Q"][s][a]) - Qs[s][a]) for s in range(pc["n"]) for a in range(pc["nA"]))
                 near1 = F(pc["gamma"]) >= 1 - F(1, 10**5)
-                ctx.violation("C08:qmdp-%s:table-is-not-the-optimal-action-values%s" % (name, ":discount-within-1e-5-of-1" if near1 else ""),
+                # exact optimal table has two DIFFERENT action values of one state inside np.isclose's default band
+                neartie = any(0 < abs(Qs[s2][a] - Qs[s2][b2]) <= F(1, 10**8) + F(1, 10**5) * max(abs(Qs[s2][a]), abs(Qs[s2][b2]))
+                              for s2 in range(pc["n"]) for a in range(pc["nA"]) for b2 in range(a))
+                suffix = ":discount-within-1e-5-of-1" if near1 else \
+                    ":optimal-action-values-differ-by-less-than-isclose-band" if (neartie and name == "pi") else ""
+                ctx.violation("C08:qmdp-%s:table-is-not-the-optimal-action-values%s" % (name, suffix),
                               dict(base, Q=qr["Q"], Q_exact=[[str(x) for x in r] for r in Qs], worst=str(worst), solver=name,
-                                   signature_class_rule="suffix ':discount-within-1e-5-of-1' is appended iff the case's discount rate gamma >= 1 - 1e-5 (here gamma = %s): the solver's tie test (np.isclose, rtol 1e-5 relative to |Q| ~ 1/(1-gamma)) cannot separate actions there; for every smaller discount the plain signature is used and is NOT covered by the known finding" % pc["gamma"]),
-                              found=bool(worst > tol * 100))
+                                   signature_class_rule="suffix ':optimal-action-values-differ-by-less-than-isclose-band' is appended (solver pi only, gamma < 1-1e-5) iff the EXACT optimal table has, in some state, two different action values with |Q(s,a)-Q(s,b)| <= 1e-8 + 1e-5*max|Q| (np.isclose's default band, which policy iteration's tie test uses); suffix ':discount-within-1e-5-of-1' is appended iff the case's discount rate gamma >= 1 - 1e-5 (here gamma = %s): the solver's tie test (np.isclose, rtol 1e-5 relative to |Q| ~ 1/(1-gamma)) cannot separate actions there; for every smaller discount the plain signature is used and is NOT covered by the known finding" % pc["gamma"]),
+                              found=bool(worst > tol * 100) or bool(suffix.startswith(":optimal")))
             fullobs = bool(case.get("fullobs"))
             for e, bi in zip(per_b, info[i]["q_idx:" + name]):
                 bq = qr["queries"][bi]
